@@ -40,7 +40,7 @@ def key (s : State) : String :=
   -- helper-goroutine pools are multisets: sort them so that permutations are one state
   let srt (l : List Nat) : List Nat := (l.toArray.qsort (· < ·)).toList
   let ld := (s.loaded.toArray.qsort (fun a b => a.1 < b.1)).toList
-  s!"{rs}|{qs}|{ld}|{s.pendingQ}|{s.finishedQ}|{s.expiredQ}|{s.unloadedQ}|{repr s.ppc}|{repr s.cpc}|{srt s.finishWaiters}|{srt s.requeuers}|{srt s.delayed}|{srt s.loaders}|{srt s.timerCbs}|{srt s.unloaders}|{s.maxRunners}"
+  s!"{rs}|{qs}|{ld}|{s.pendingQ}|{s.finishedQ}|{s.expiredQ}|{s.unloadedQ}|{repr s.ppc}|{repr s.cpc}|{srt s.finishWaiters}|{srt s.requeuers}|{srt s.delayed}|{srt s.loaders}|{srt s.timerCbs}|{srt s.unloaders}|{srt s.unloadCalls}|{s.maxRunners}"
 
 def fits (cpu : Bool) (ngpus : Nat) : List Fit :=
   [true, false].flatMap fun a => [true, false].flatMap fun b => [true, false].map fun c =>
@@ -53,6 +53,7 @@ def internalActs (cpu : Bool) (ngpus : Nat) (s : State) : List Act :=
   ++ s.finishWaiters.map Act.finishSend
   ++ s.timerCbs.map Act.timerCb
   ++ s.unloaders.map Act.unloadRun
+  ++ s.unloadCalls.eraseDups.map Act.unloadBind
 
 def timeActs (s : State) : List Act :=
   s.requeuers.map Act.requeue ++ s.delayed.map Act.delayedRequeue
